@@ -23,7 +23,7 @@ OPT = {'medium_index': 1.33, 'illum_wavelen': 0.66,
 # 10x margin; see DESIGN.md C10
 TOL_SPHERE = 1e-4       # T-matrix sphere vs far-field Mie, relative to max|ref|
 TOL_SYM = 1e-6          # default for same-solver symmetry relations
-TOL_REL = {'mirror': 2e-6, 'reduce': 1e-8, 'reverse': 1e-8, 'spin': 1e-10}
+TOL_REL = {'mirror': 1e-5, 'reduce': 1e-8, 'reverse': 1e-8, 'spin': 1e-10}
 
 
 def draw_angle(rng, period):
